@@ -211,14 +211,16 @@ def marshalSeq (one : List Char → PyVal → Nat → Fds → MRes) :
           | .error e => .error e
           | .ok (stop, rest, fds2) => .ok (stop, zeros p ++ bs ++ rest, fds2)
 
+/-- The values `marshal()` iterates over: the attributes named by `dbusOrder` if the object has one
+(`hasattr(variableList, 'dbusOrder')`), else `iter(variableList)` (called by `zip`). -/
+def topItems : PyVal → Except PyErr (List PyVal)
+  | .obj _ _ fields => .ok fields
+  | v => pyIter v
+
 /-- `marshal(compoundSignature, variableList, startByte, lendian, oobFDs)`. -/
 def marshalTop (one : List Char → PyVal → Nat → Fds → MRes)
     (sig : List Char) (vals : PyVal) (start : Nat) (fds : Fds) : MRes :=
-  let items : Except PyErr (List PyVal) :=
-    match vals with
-    | .obj _ _ fields => .ok fields      -- hasattr(variableList, 'dbusOrder')
-    | v => pyIter v                      -- zip() calls iter(variableList)
-  match items with
+  match topItems vals with
   | .error e => .error e
   | .ok items =>
     let lp := lazyPieces sig
